@@ -14,6 +14,16 @@ from .ref.mpt import BLANK_ROOT, RefTrie
 from .util import Abort, Raised, abort_exception, cm_enter, cm_exit, expect, expect_eq, impl, nibbles_of
 
 
+class OddBytes(bytes):
+    """A bytes subclass with its own hex()/repr, like hexbytes.HexBytes before 1.0."""
+
+    def hex(self, *args):
+        return "0x" + super().hex(*args)
+
+    def __repr__(self):
+        return f"OddBytes({self.hex()!r})"
+
+
 def apply_look(trie, model, op, prev=None):
     """An explicit single lookup in one spelling, compared with the model."""
     key = resolve_key(op[1], sorted(model), prev.get(None) if prev else None)
@@ -21,6 +31,8 @@ def apply_look(trie, model, op, prev=None):
     sp = op[2]
     if len(key) % 3 == 1:
         key = HexBytes(key)
+    elif len(key) % 3 == 2:
+        key = OddBytes(key)
     if sp == 0:
         expect_eq("get-returns-latest", impl("lookup-never-raises", trie.get, key), want, f"get({key!r})")
     elif sp == 1:
@@ -49,7 +61,8 @@ def apply_simple(trie, model, op, allowed=(), prev=None):
     else:
         old = None
     syn = op[3] if kind == "set" else op[2]
-    akey = HexBytes(key) if syn >= 2 else key  # a bytes subclass is a byte string too
+    # a bytes subclass is a byte string too (HexBytes, or one that overrides hex()/repr)
+    akey = (HexBytes(key) if len(key) % 2 else OddBytes(key)) if syn >= 2 else key
     if kind == "set":
         val = resolve_val(op[2], key, prev)
         if prev is not None and old is not None and old != val:
